@@ -56,9 +56,10 @@ Definition cond_index (len number i : nat) : nat :=
   if Nat.eqb number 1 then 0 else (i * (len - 1)) / (number - 1).
 Definition condensation (bound : list N) (number : nat) : list N :=
   map (fun i => nth0 bound (cond_index (length bound) number i)) (seq 0 number).
+(* np.all(np.diff(arr) >= 0) *)
 Fixpoint is_increasing (l : list N) : bool :=
   match l with
-  | a :: ((b :: _) as r) => (a <=? b) && is_increasing r
+  | a :: ((b :: _) as r) => (nzero <=? (b - a)) && is_increasing r
   | _ => true end.
 (* np.all(left >= right) on two arrays of equal length *)
 Definition all_ge (l r : list N) : bool := forallb (fun p => snd p <=? fst p) (combine l r).
@@ -94,23 +95,31 @@ Definition bound_steps_check (bound : list N) : list N :=
 
 (* ---------- Staircase(left, right) ---------- *)
 Definition pbox := (list N * list N)%type.
-(* arrays: np.all(left >= right) elementwise (equal lengths assumed; otherwise numpy broadcasting fails) *)
-Definition left_right_switch (l r : list N) : list N * list N :=
-  if all_ge l r then (r, l) else (l, r).
-Definition mk_staircase (l r : list N) : res pbox :=
-  let '(l, r) := left_right_switch l r in
+(* np.all(left >= right): elementwise for two arrays; for two Python lists (what sorted(...) returns in
+   pbox_number_ops, __neg__, and the lists built by imp) it is ONE lexicographic list comparison *)
+Fixpoint lex_ge (l r : list N) : bool :=
+  match l, r with
+  | [], [] => true | [], _ :: _ => false | _ :: _, [] => true
+  | a :: l', b :: r' => if neqb N a b then lex_ge l' r' else (b <=? a)
+  end.
+Definition left_right_switch (lists : bool) (l r : list N) : list N * list N :=
+  if (if lists then lex_ge l r else all_ge l r) then (r, l) else (l, r).
+Definition mk_staircase_gen (lists : bool) (l r : list N) : res pbox :=
+  let '(l, r) := left_right_switch lists l r in
   let l := bound_steps_check l in let r := bound_steps_check r in
   if negb (Nat.eqb (length l) (length r)) then Raise AssertionErr
   else if is_increasing l && is_increasing r then Ok (l, r) else Raise NotIncreasing.
+Definition mk_staircase := mk_staircase_gen false.
+Definition mk_staircase_lists := mk_staircase_gen true.
 
 (* ---------- unary / number operations of pbox_abc.py ---------- *)
 Definition pneg (p : pbox) : res pbox :=
-  mk_staircase (nsort (map (nopp N) (rev (snd p)))) (nsort (map (nopp N) (rev (fst p)))).
+  mk_staircase_lists (nsort (map (nopp N) (rev (snd p)))) (nsort (map (nopp N) (rev (fst p)))).
 Definition precip (p : pbox) : res pbox :=
   if (nth0 (fst p) 0 <=? nzero) && (nzero <=? lastn (snd p)) then Raise ZeroDivision
   else mk_staircase (map (fun x => none / x) (rev (snd p))) (map (fun x => none / x) (rev (fst p))).
 Definition pnum (f : N -> N -> N) (p : pbox) (c : N) : res pbox :=
-  mk_staircase (nsort (map (fun x => f x c) (fst p))) (nsort (map (fun x => f x c) (snd p))).
+  mk_staircase_lists (nsort (map (fun x => f x c) (fst p))) (nsort (map (fun x => f x c) (snd p))).
 Definition punary (f : N -> N) (p : pbox) : res pbox := mk_staircase (map f (fst p)) (map f (snd p)).
 
 (* env / imp *)
@@ -118,7 +127,7 @@ Definition penv (p q : pbox) : res pbox :=
   mk_staircase (map2 nmin (fst p) (fst q)) (map2 nmax (snd p) (snd q)).
 Definition pimp (p q : pbox) : res pbox :=
   let u := map2 nmax (fst p) (fst q) in let d := map2 nmin (snd p) (snd q) in
-  if existsb (fun x => snd x <? fst x) (combine u d) then Raise EmptyImp else mk_staircase u d.
+  if existsb (fun x => snd x <? fst x) (combine u d) then Raise EmptyImp else mk_staircase_lists u d.
 
 (* ---------- ecdf / stacking ---------- *)
 (* get_ecdf(s, w): sort pairs by value (stable), cumulative sum, prepend (q0, 0) *)
